@@ -14,7 +14,7 @@ Definition pre_events (tx : option str) (extra : bool) : list wevent :=
 
 Lemma elem_starts v : elem_ok v = true -> exists q tl, gen_val v = WStart q :: tl.
 Proof.
-  destruct v as [[q|] x l ks a | s | q p]; try discriminate; intros _.
+  destruct v as [[q|] x l ks a | s | q p | c ra sh items]; try discriminate; intros _.
   - exists q. eexists. cbn [gen_val opt_ev option_map app]. reflexivity.
   - exists q. eexists. reflexivity.
 Qed.
@@ -105,8 +105,8 @@ Lemma text_item_events tx vs :
   flat_map gen_val (text_item tx ++ vs) = pre_events tx false ++ flat_map gen_val vs.
 Proof. unfold pre_events. destruct tx; cbn [text_item flat_map gen_val app option_map]; rewrite ?app_nil_r; reflexivity. Qed.
 
-Lemma holder_events c o rd ks ratts tx :
-  forallb (child_ok c rd) ks = true ->
+Lemma holder_events reg c o rd ks ratts tx :
+  forallb (child_ok reg c rd) ks = true ->
   (c_kind c = KChoice -> tx = None) ->
   gen_root c (mkRobj ratts (holder_value c tx (any_kids o rd [] 0 ks)))
   = Some (WStart (c_rq c) :: map attr_ev ratts
@@ -122,7 +122,7 @@ Proof.
   - rewrite text_item_events. reflexivity.
   - rewrite text_item_events. reflexivity.
   - rewrite (Hc eq_refl). unfold vs.
-    rewrite (gen_choice_kids c o rd [] ks 0 Hk), opt_concat_some, <- flat_map_concat. reflexivity.
+    rewrite (gen_choice_kids reg c o rd [] ks 0 Hk), opt_concat_some, <- flat_map_concat. reflexivity.
 Qed.
 
 Lemma single_events_pre tx vs :
@@ -134,16 +134,16 @@ Proof.
 Qed.
 
 (* holder_pre plus the two writer clauses *)
-Definition holder_pre_w (c : wcfg) (t : itree) : bool := holder_pre c t && guard_write [] t.
+Definition holder_pre_w (reg : list wcfg) (c : wcfg) (t : itree) : bool := holder_pre reg c t && guard_write [] t.
 
-Theorem holder_written_ok c o t :
-  is_full o -> holder_pre_w c t = true ->
-  holder_written c o t = Some (norm_ws_root (canon [] t)).
+Theorem holder_written_ok reg c o t :
+  is_full o -> holder_pre_w reg c t = true ->
+  holder_written reg c o t = Some (norm_ws_root (canon [] t)).
 Proof.
   intros Ho H. unfold holder_pre_w in H. apply andb_true_iff in H as [H Hgw].
-  pose proof (holder_roundtrip_ok c o t Ho H) as Spec.
+  pose proof (holder_roundtrip_ok reg c o t Ho H) as Spec.
   unfold holder_written. unfold holder_roundtrip in Spec.
-  rewrite (holder_captures c o t Ho H) in *.
+  rewrite (holder_captures reg c o t Ho H) in *.
   destruct t as [rq ra rd rx ks rl]. unfold holder_pre in H. cbn [i_name i_atts i_nsd i_text i_kids i_tail] in *.
   apply andb_true_iff in H as [H Hg]. apply andb_true_iff in H as [H Hwf]. apply andb_true_iff in H as [H Hkind].
   apply andb_true_iff in H as [H Hkids]. apply andb_true_iff in H as [H Hws]. apply andb_true_iff in H as [H Htl].
@@ -168,7 +168,7 @@ Proof.
   { unfold ratts. destruct (c_amap c); [|reflexivity]. apply attrs_wr_ok; assumption. }
   assert (Hch : c_kind c = KChoice -> tx = None).
   { intros K. rewrite K in Hkind. apply andb_true_iff in Hkind as [Hx _]. unfold tx. apply normalize_all_ws. exact Hx. }
-  pose proof (holder_events c o rd ks ratts tx Hkids Hch) as HE. fold vs in HE. rewrite HE in *. clear HE.
+  pose proof (holder_events reg c o rd ks ratts tx Hkids Hch) as HE. fold vs in HE. rewrite HE in *. clear HE.
   rewrite (write_holder (c_rq c) ratts tx (extra_of c vs) vs Hnd Hra Htx Hvs Hwr).
   (* the specification reading gives the same tree, and that one is the expected tree *)
   rewrite <- Spec. symmetry.
@@ -184,7 +184,7 @@ Qed.
 From XV Require Import Proofs.GenericRefute.
 
 Example holder_pre_w_nonvacuous :
-  holder_pre_w cfg_single w_ok_holder = true /\ holder_pre_w cfg_list w_ok_holder = true /\
-  holder_pre_w cfg_mixed w_ok_holder = true /\ holder_pre_w cfg_choice w_ok_choice = true /\
-  holder_pre_w cfg_list_amap w_ok_amap = true.
+  holder_pre_w reg_w cfg_single w_ok_holder = true /\ holder_pre_w reg_w cfg_list w_ok_holder = true /\
+  holder_pre_w reg_w cfg_mixed w_ok_holder = true /\ holder_pre_w reg_w cfg_choice w_ok_choice = true /\
+  holder_pre_w reg_w cfg_list_amap w_ok_amap = true.
 Proof. repeat split; vm_compute; reflexivity. Qed.
